@@ -90,7 +90,50 @@ def run(ctx):
         if same_ray and not rel(b3, b, 1e-9):
             ctx.violate(f"the same inspection rotated out of the Oxz plane gives beamspread {b3!r} instead of {b!r}: "
                         "it does not depend on leg lengths, velocities and incidence angles only", {**cj, "rotation": R.tolist()}, {"kind": "rigid_motion"})
+    check_wall_door(ctx)
     ctx.assumptions.append("sin / cos / sqrt are external routines; the neighbourhood of total-reflection angles is excluded (the tube degenerates)")
+
+
+def check_wall_door(ctx):
+    """The beamspread as the library's own door for wall echoes returns it (`block_in_contact.ray_weights_for_wall`, which builds
+    its own cached ray geometry and asks it for the directivity angles first), on a session of contact paths with 1-4 legs
+    in the block evaluated one after the other: each is 1/sqrt(d) of its own ray tube."""
+    import arim.models.block_in_contact as bic
+    from arim import model, ray
+
+    rng = ctx.rng
+    session = []
+    for i in range(16 * ctx.scale):
+        n = int([3, 4, 5, 3, 5, 4, 3, 5][i % 8])
+        for _ in range(80):
+            r = fixtures_mod().snell_path(rng, n, tilt=rng.random() < 0.7, max_inc_deg=60.0, contact=True)
+            if r is not None:
+                session.append(r)
+                break
+    for path, info in session:
+        n = path.numinterfaces
+        cj = {"op": "beamspread_wall_door", "points": [p.tolist() for p in info["points"]], "vels": info["vels"], "modes": info["modes"], "tilts": info["tilts"],
+              "session": [len(i_["points"]) for _, i_ in session]}
+        ctx.case(("wall_door", tuple(np.concatenate(info["points"]).tolist())), n >= 3)
+        ctx.count(f"wall_door:legs={n - 1}")
+        use_dir = bool(rng.random() < 0.8)
+        try:
+            _, wd = bic.ray_weights_for_wall(path, 5e6, probe_element_width=1e-3, use_directivity=use_dir, use_transrefl=bool(rng.integers(0, 2)), use_attenuation=False)
+        except Exception as e:
+            ctx.violate(f"ray_weights_for_wall raised {type(e).__name__}: {str(e)[:80]} on a {n - 1}-leg wall-echo path", cj, {"kind": "wall_door"})
+            continue
+        b = float(np.asarray(wd["beamspread"])[0, 0])
+        d = 1.0 / b ** 2
+        d_want = info["legs"][0] if n == 2 else pathterms.tube_virtual_distance(info)
+        b_direct = float(model.beamspread_2d_for_path(ray.RayGeometry.from_path(path, use_cache=False))[0, 0])
+        if not rel(d, d_want, 2e-5 if n > 2 else 1e-12) or not rel(b, b_direct, 1e-12):
+            ctx.violate(f"the beamspread returned by ray_weights_for_wall for a {n - 1}-leg contact path gives virtual distance {d}; its ray tube gives {d_want} "
+                        f"(beamspread_2d_for_path on a fresh geometry: {1 / b_direct ** 2})", cj, {"kind": "wall_door", "legs": n - 1})
+
+
+def fixtures_mod():
+    import fixtures
+    return fixtures
 
 
 def search(ctx):
